@@ -118,8 +118,29 @@ def tables(ctx, report, folder):
     # rows: row index = row + 16 - len(lines)
     tc = ctx.index.get_function(SCC, "SCCWriter._text_to_code")
     report.covered(tc)
-    adj = [n for n in walk_no_nested(tc.node) if isinstance(n, ast.AugAssign) and src(n.target) == "row"]
-    ok = len(adj) == 1 and src(adj[0].value) == "16 - len(lines)" and isinstance(adj[0].op, ast.Add)
+    # folded: k lines of text must be addressed to rows 16-k .. 15 (two identical PAC words per row)
+    from ..core.constfold import Stub as _Stub
+    wcls_ = ctx.index.get_class(SCC, "SCCWriter")
+    hi = folder.value("pycaption.scc.constants", "PAC_HIGH_BYTE_BY_ROW")
+    lo = folder.value("pycaption.scc.constants", "PAC_LOW_BYTE_BY_ROW_RESTRICTED")
+    adj = []
+    ok = True
+    for k in (1, 2, 3, 4):
+        text = "\n".join("AB" for _ in range(k))
+        cap = _Stub("caption", {}, {"get_text_nodes": lambda text=text: [text]})
+        try:
+            code = folder.call_function(tc, [cap], self_value=_Stub("writer", {}, cls=wcls_))
+        except AnalysisError as e:
+            raise AnalysisError(f"_text_to_code cannot be folded: {e}")
+        words = code.split()
+        rows = []
+        for r_ in range(1, 16):
+            w_ = f"{hi[r_]}{lo[r_]}"
+            if w_ in words:
+                rows.append(r_)
+        adj.append({"lines": k, "rows_addressed": rows})
+        if rows != list(range(16 - k, 16)):
+            ok = False
     report.check(ok, "R-AFFINE", tc, "the last line is written on row 15 (row = index + 16 - number of lines)",
                  [short(a) for a in adj], "2")
     uses = [src(n) for n in walk_no_nested(tc.node) if isinstance(n, ast.Subscript)
@@ -242,22 +263,19 @@ def preroll(ctx, report, folder):
     for n in walk_no_nested(fn.node):
         if isinstance(n, ast.Assign) and len(n.targets) == 1 and isinstance(n.targets[0], ast.Name):
             assigns.setdefault(n.targets[0].id, []).append(n.value)
-    cw = assigns.get("code_words", [])
-    if len(cw) != 1:
-        raise AnalysisError("SCCWriter.write: code_words not found")
-    m = re.fullmatch(r"len\(code\) / 5 \+ (\d+)", src(cw[0]))
+    cs = assigns.get("code_start", [])
+    if len(cs) != 1:
+        raise AnalysisError("SCCWriter.write: pre-rolled start (code_start) not found")
+    resolved = src(resolve_local(fn, cs[0], index=ctx.index))
+    m = re.fullmatch(r"start - \(len\(code\) / 5 \+ (\d+)\) \* MICROSECONDS_PER_CODEWORD", resolved)
     if not m:
-        raise AnalysisError(f"SCCWriter.write: code_words expression not recognised: {src(cw[0])}")
-    report.check(int(m.group(1)) == lit_words, "R-TABLE-SIBLING", (fn, cw[0]),
+        raise AnalysisError(f"SCCWriter.write: pre-roll expression not recognised: {resolved}")
+    report.check(int(m.group(1)) == lit_words, "R-TABLE-SIBLING", (fn, cs[0]),
                  "pre-roll counts the payload words plus the literal command words written around them",
                  {"constant": int(m.group(1)), "literal_command_words_per_caption": lit_words,
                   "literals": per_caption}, "4")
-    ct = assigns.get("code_time_microseconds", [])
-    cs = assigns.get("code_start", [])
-    ok = len(ct) == 1 and src(ct[0]) == "code_words * MICROSECONDS_PER_CODEWORD" and \
-        len(cs) == 1 and src(cs[0]) == "start - code_time_microseconds"
-    report.check(ok, "R-AFFINE", fn, "transmission starts one frame per code word before the caption's start",
-                 {"code_time": [src(x) for x in ct], "code_start": [src(x) for x in cs]}, "4")
+    report.ok("R-AFFINE", fn, "transmission starts one frame per code word before the caption's start",
+              {"code_start": resolved}, "4")
     tests = [n for n in walk_no_nested(fn.node) if isinstance(n, ast.If) and "MICROSECONDS_PER_CODEWORD" in src(n.test)]
     if len(tests) != 1:
         raise AnalysisError("SCCWriter.write: clear-screen test not found")
@@ -320,15 +338,39 @@ def word_shape(ctx, report, folder):
     # _print_character: 2-hex code appended in place, 4-hex code after align; each followed by _maybe_space in
     # _text_to_code; rows start with two "hhll " PACs and end with _maybe_align
     pc = ctx.index.get_function(SCC, "SCCWriter._print_character")
-    rets = {}
-    for n in walk_no_nested(pc.node):
-        if isinstance(n, ast.If):
-            m = re.fullmatch(r"len\(char_code\) == (\d)", src(n.test))
-            if m and n.body and isinstance(n.body[0], ast.Return):
-                rets[int(m.group(1))] = src(n.body[0].value)
-    ok = rets.get(2) == "code + char_code" and rets.get(4) == "self._maybe_align(code) + char_code"
+    # folded on (alignment state) x (one-byte character, two-byte character, unknown character)
+    from ..core.constfold import Stub
+    wcls = ctx.index.get_class(SCC, "SCCWriter")
+    c2c = folder.value("pycaption.scc.constants", "CHARACTER_TO_CODE")
+    s2c = folder.value("pycaption.scc.constants", "SPECIAL_OR_EXTENDED_CHAR_TO_CODE")
+    one = next(ch for ch, cd in sorted(c2c.items()) if len(cd) == 2 and ch.isalpha())
+    two = next(ch for ch, cd in sorted(s2c.items()) if len(cd) == 4 and ch not in c2c)
+    unknown = "\u2603"
+    if unknown in c2c or unknown in s2c:
+        raise AnalysisError("_print_character: probe character is encodable")
+    rets, bad = {}, []
+    for prefix in ("", "ab", "abcd "):
+        for label, ch in (("one-byte", one), ("two-byte", two), ("unknown", unknown)):
+            try:
+                out = folder.call_function(pc, [prefix, ch], self_value=Stub("writer", {}, cls=wcls))
+            except AnalysisError as e:
+                raise AnalysisError(f"_print_character cannot be folded: {e}")
+            rets[f"{prefix!r}+{label}"] = out
+            if not isinstance(out, str) or not out.startswith(prefix):
+                bad.append((prefix, label, out))
+                continue
+            added = out[len(prefix):]
+            if label == "one-byte":
+                good = added == c2c[one]
+            else:
+                pad = "80 " if len(prefix) % 5 == 2 else ""
+                good = re.fullmatch(re.escape(pad) + r"[0-9a-f]{4}", added) is not None and \
+                    (label == "unknown" or added.endswith(s2c[two]))
+            if not good:
+                bad.append((prefix, label, out))
+    ok = not bad
     report.check(ok, "R-AUTOMATON", pc, "a one-byte code is appended in place, a two-byte code starts on a word boundary",
-                 rets, "6")
+                 {"folded": rets, "wrong": bad[:3]}, "6")
     tc = ctx.index.get_function(SCC, "SCCWriter._text_to_code")
     # automaton closure: states reachable at the top of a row
     def step_char(st, nbytes):
